@@ -18,7 +18,7 @@ from typing import Any, Callable, Dict, List, Optional
 
 ROOT = Path(__file__).resolve().parent.parent
 REPO = Path(os.environ.get("VERIF_REPO", "/repo"))
-EVIDENCE_DIR = ROOT / "evidence"
+EVIDENCE_DIR = Path(os.environ.get("VERIF_EVIDENCE_DIR", str(ROOT / "evidence")))   # override only for scratch runs on seeded changes
 REPLAY_DIR = ROOT / "replays"
 KNOWN_FILE = ROOT / "known_findings.json"
 
@@ -201,7 +201,7 @@ class Run:
             "wall_s": round(wall, 2),
             "violations": c.get(VIOLATION, 0),
         }
-        EVIDENCE_DIR.mkdir(exist_ok=True)
+        EVIDENCE_DIR.mkdir(parents=True, exist_ok=True)
         (EVIDENCE_DIR / f"{self.pid}.json").write_text(json.dumps(ev, indent=1, ensure_ascii=False) + "\n")
         print(f"[{self.pid}] tier={self.tier} seed={self.seed} obligations={n} " +
               " ".join(f"{k}={v}" for k, v in sorted(c.items())) +
